@@ -24,7 +24,8 @@ Section C12.
   Notation msg := (@msg N St).
   Notation init := (init_net St G steq misfit expo draw trans sched I exchange).
   Notation final := (final_net St G steq misfit expo draw trans sched I exchange).
-  Notation steps := (total_steps sched I exchange).
+  Notation steps := (total_steps sched I exchange 10).
+  Notation steps_sync := (total_steps sched I exchange 6).
 
   (* For every number of chains (length ls), proposal count P, interval I >= 1, exchange on / off and every
      schedule whose looked-up rows exist and pair distinct existing chains:
@@ -46,6 +47,23 @@ Section C12.
     destruct (canonical_run St G steq misfit expo draw trans sched I exchange cap cap1 ls P Hok) as [H1 H2].
     split; [exact H1|]. split; [exact H2|].
     exact (all_interleavings St G steq misfit expo draw trans sched I exchange cap cap1 ls P Hok).
+  Qed.
+
+  (* The same with synchronous pipes -- a send returns only when the matching receive has taken the message
+     (what a pipe does with a message larger than its buffer): every interleaving is bounded, cannot get
+     stuck, and ends in the SAME final state as with buffered pipes. *)
+  Theorem c12_every_interleaving_synchronous : forall (ls : list lst) P,
+    run_defined sched I exchange (length ls) P ->
+    gpath _ nat (sstep lst msg) (init ls P) (steps_sync (length ls) 0 P) (final ls P) /\
+    all_done lst msg (final ls P) = true /\
+    forall k u, gpath _ nat (sstep lst msg) (init ls P) k u ->
+      k <= steps_sync (length ls) 0 P /\
+      (gterminal _ nat (sstep lst msg) u -> k = steps_sync (length ls) 0 P /\ u = final ls P).
+  Proof.
+    intros ls P [_ Hok].
+    destruct (canonical_run_sync St G steq misfit expo draw trans sched I exchange ls P Hok) as [H1 H2].
+    split; [exact H1|]. split; [exact H2|].
+    exact (all_interleavings_sync St G steq misfit expo draw trans sched I exchange ls P Hok).
   Qed.
 
   (* At a scheduled exchange the pair (slave a, master b) exactly swaps its states when
@@ -81,9 +99,7 @@ Section C12.
       length (l_out (loc pr)) = q.
   Proof.
     intros ls P q Hq [_ Hok] H0 i pr Hi.
-    assert (cap1 : room msg cap [] = true).
-    { unfold room. destruct cap as [c|]; [|reflexivity]. apply Nat.ltb_lt. simpl. exact cap_ge_1. }
-    exact (run_good St G steq misfit expo draw trans sched I exchange cap cap1 steq_refl steq_sound trans_own ls P q Hq Hok H0 i pr Hi).
+    exact (run_good St G steq misfit expo draw trans sched I exchange steq_refl steq_sound trans_own ls P q Hq Hok H0 i pr Hi).
   Qed.
 End C12.
 
@@ -115,6 +131,7 @@ Proof.
 Qed.
 
 Print Assumptions c12_every_interleaving.
+Print Assumptions c12_every_interleaving_synchronous.
 Print Assumptions c12_keep_or_swap.
 Print Assumptions c12_own_misfit_and_columns.
 Print Assumptions c12_guard_sound.
